@@ -351,10 +351,10 @@ example : 0 < tinyMsa.alen := by decide
 example : blockStarts tinyMsa.alen (stoCpl true tinyMsa) = [0] := pfam_blocks tinyMsa (by decide)
 example : stockholmWrite false none tinyMsa = str "# STOCKHOLM 1.0\n\naa ACG\nb  A-G\n//\n" := by decide +kernel
 example : stockholmWrite true none tinyMsa = stockholmWrite false none tinyMsa := by decide +kernel
-/-- unique-name forcing; note `0|aa` on the #=GS DR lines of the second sequence (the C code prints the tag index there) -/
+/-- unique-name forcing; the #=GS DR lines of the second sequence carry its own prefix `1|aa` (fix 88b6a6d; the tag index was printed before) -/
 example : stockholmWrite false none tinyDup =
     str ("# STOCKHOLM 1.0\n# WARNING: seq names have been made unique by adding a prefix of \"<seq#>|\"\n\n"
-      ++ "#=GS 0|aa WT 1.50\n#=GS 1|aa WT 1.00\n\n#=GS 0|aa DR x\n#=GS 0|aa DR y\n\n0|aa ACG\n1|aa A-G\n//\n") := by decide +kernel
+      ++ "#=GS 0|aa WT 1.50\n#=GS 1|aa WT 1.00\n\n#=GS 1|aa DR x\n#=GS 1|aa DR y\n\n0|aa ACG\n1|aa A-G\n//\n") := by decide +kernel
 example : phylipWrite false none tinyMsa = str " 2 3\naa         ACG\nb          A-G\n" := by decide +kernel
 example : phylipWrite true none tinyMsa = phylipWrite false none tinyMsa := by decide +kernel
 example : clustalWrite false none tinyMsa = str "CLUSTAL 2.1 multiple sequence alignment\n\naa ACG\nb  A-G\n   * *\n" := by decide +kernel
